@@ -88,14 +88,22 @@ def futures_world(h, symbols=('BTC-USDT',), leverage=None, mode='isolated', with
         ex.f['assets'][base] = Fraction(0)
         ex.f['temp_reduced_amount'][base] = h.real(prefix + f'tra_{base}')
         ex.f['available_assets'][base] = h.real(prefix + f'avail_{base}')
-        p = Obj(r.find('jesse.models.Position.Position'), name=f'position[{s}]')
+        w.positions[s] = None
+    ov = ctx.cfg.overrides
+    ov['jesse.services.selectors.get_position'] = lambda i, a, k: w.positions.get(a[1])
+    ov['jesse.services.selectors.get_exchange'] = lambda i, a, k: ex
+    ov.setdefault('jesse.helpers.generate_unique_id', lambda i, a, k: Opaque('id'))
+    for s in symbols:
+        # built by the real Position.__init__, so that every field the class declares exists (also fields added later)
+        try:
+            p = h.interp.instantiate(r.find('jesse.models.Position.Position'), ['Sandbox', s], {})
+            p.name = f'position[{s}]'
+        except Exception:
+            p = Obj(r.find('jesse.models.Position.Position'), name=f'position[{s}]')
         p.f.update(id=Opaque('id'), entry_price=None, exit_price=None, current_price=None, qty=0, previous_qty=0,
                    opened_at=None, closed_at=None, _mark_price=None, _funding_rate=None, _next_funding_timestamp=None,
                    _liquidation_price=None, exchange_name='Sandbox', exchange=ex, symbol=s, strategy=strat)
         w.positions[s] = p
-    ov = ctx.cfg.overrides
-    ov['jesse.services.selectors.get_position'] = lambda i, a, k: w.positions.get(a[1])
-    ov['jesse.services.selectors.get_exchange'] = lambda i, a, k: ex
     ov['jesse.helpers.now_to_timestamp'] = lambda i, a, k: Opaque('now')
     ov['jesse.helpers.now'] = lambda i, a, k: Opaque('now')
     return w
